@@ -526,6 +526,10 @@ func (this *Writer) Write(block []byte) (int, error) {
 		return 0, &IOError{msg: "Stream closed", code: kanzi.ERR_WRITE_FILE}
 	}
 
+	if atomic.LoadInt32(&this.blockID) == _CANCEL_TASKS_ID {
+		return 0, &IOError{msg: "Stream invalidated by a previous write error", code: kanzi.ERR_WRITE_FILE}
+	}
+
 	off := 0
 	remaining := len(block)
 
@@ -621,6 +625,11 @@ func (this *Writer) Close() error {
 func (this *Writer) processBlock() error {
 	if err := this.writeHeader(); err != nil {
 		return err
+	}
+
+	// A previous batch failed: the stream is incomplete, do not report success
+	if atomic.LoadInt32(&this.blockID) == _CANCEL_TASKS_ID {
+		return &IOError{msg: "Stream invalidated by a previous write error", code: kanzi.ERR_WRITE_FILE}
 	}
 
 	if this.available == 0 {
